@@ -1,4 +1,6 @@
 pub mod bulk;
+pub mod hist;
+pub mod minmax;
 pub mod nan;
 pub mod order;
 pub mod quant;
